@@ -720,9 +720,12 @@ def _exec_scale(doc, res):
         exps.append(math.log2(max(1, steps_b) / max(1, steps_a)) / grow if grow > 0.2 else 0.0)
     tail = exps[-2:]
     res.note(doc['shape'], [s[3] for s in series])
-    if series[-1][1] > 20000 and tail and max(tail) > MAX_EXPONENT:
+    # growth must show at the largest doubling and already at the one before: a parser that stops early on the small
+    # inputs and works through the large ones (a length field crossing a threshold) jumps once and is flat again
+    sustained = len(tail) == 2 and tail[1] > MAX_EXPONENT and tail[0] > 1.05
+    if series[-1][1] > 20000 and (sustained or (len(tail) == 1 and tail[0] > MAX_EXPONENT)):
         res.violation((PROPERTY, 'superlinear', doc['shape']),
-                      'growth exponent at the two largest doublings <= %.2f' % MAX_EXPONENT,
+                      'growth exponent at the largest doubling <= %.2f (with growth already visible at the one before)' % MAX_EXPONENT,
                       'shape %s (%s): (len, steps) = %s exponents = %s' % (
                           doc['shape'], cls.__name__, [(s[0], s[1]) for s in series], ['%.2f' % e for e in exps]))
     if any(s[3] == 'ok' for s in series):
@@ -746,7 +749,8 @@ def _series_verdict(res, label, cls, series, sig_tail):
     if len(series) >= 3 and series[-1][2] > series[0][2] + DEPTH_GROWTH and series[-1][2] > 40:
         res.violation((PROPERTY, 'depth-grows') + tuple(sig_tail), 'recursion depth is bounded by a constant',
                       '%s (%s): (len, depth) = %s' % (label, cls.__name__, [(s[0], s[2]) for s in series]))
-    if series[-1][1] > 20000 and tail and max(tail) > MAX_EXPONENT:
+    sustained = len(tail) == 2 and tail[1] > MAX_EXPONENT and tail[0] > 1.05    # see _exec_scale
+    if series[-1][1] > 20000 and (sustained or (len(tail) == 1 and tail[0] > MAX_EXPONENT)):
         res.violation((PROPERTY, 'superlinear') + tuple(sig_tail),
                       'growth exponent at the two largest doublings <= %.2f' % MAX_EXPONENT,
                       '%s (%s): (len, steps) = %s exponents = %s' % (
